@@ -359,3 +359,121 @@ Proof.
   intros H. destruct (ipv6_to_u128_value gs H) as (V & B1 & B2). rewrite <- V.
   change (2 ^ 128) with (2 ^ 64 * 2 ^ 64). nia.
 Qed.
+
+(* ------------------------------------------------------------------ *)
+(* Exact language of NewIPv4FromString: five decimal fields of value <= 255 laid out as
+   "A.B.C.D/M" (leading zeros tolerated, nothing else), denoting exactly their numeric values. *)
+
+Lemma parse_uint10_some bits s n :
+  parse_uint10 bits s = Some n -> forallb is_digit s = true /\ n < 2 ^ bits.
+Proof.
+  unfold parse_uint10, parse_dec. destruct s as [|c r]; [discriminate|].
+  destruct (forallb is_digit (c :: r)); [|discriminate].
+  destruct (N.ltb_spec (dec_val (c :: r)) (2 ^ bits)) as [Hlt|]; [|discriminate].
+  intros Hs. inversion Hs; subst. now split.
+Qed.
+
+Lemma digits_nob c s : forallb is_digit s = true -> is_digit c = false -> nob c s = true.
+Proof. intros. now apply (nob_of_class is_digit). Qed.
+
+Lemma join_split sep s : join_with [sep] (split_on sep s) = s.
+Proof.
+  induction s as [|c r IH]; [reflexivity|]. cbn [split_on].
+  pose proof (split_on_nonnil sep r) as Hnn.
+  destruct (N.eqb_spec c sep) as [->|Hne]; destruct (split_on sep r) as [|h t]; try congruence.
+  - change (join_with [sep] ([] :: h :: t)) with (sep :: join_with [sep] (h :: t)). now rewrite IH.
+  - destruct t as [|h' t'].
+    + cbn [join_with] in *. now rewrite IH.
+    + change (join_with [sep] ((c :: h) :: h' :: t')) with (c :: join_with [sep] (h :: h' :: t')).
+      now rewrite IH.
+Qed.
+
+Lemma ipv4_parse_exact s a b c d m :
+  ipv4_of_string s = Ok (IPv4 a b c d m) <->
+  exists da db dc dd dm,
+    s = da ++ [c_dot] ++ db ++ [c_dot] ++ dc ++ [c_dot] ++ dd ++ [c_slash] ++ dm /\
+    parse_uint10 8 da = Some a /\ parse_uint10 8 db = Some b /\ parse_uint10 8 dc = Some c /\
+    parse_uint10 8 dd = Some d /\ parse_uint10 8 dm = Some m.
+Proof.
+  split.
+  - unfold ipv4_of_string.
+    destruct (split_on c_slash s) as [|addr [|mask [|? ?]]] eqn:E1; try discriminate.
+    destruct (parse_uint10 8 mask) as [m'|] eqn:Pm; [|discriminate].
+    destruct (split_on c_dot addr) as [|oa [|ob [|oc [|od [|? ?]]]]] eqn:E2; try discriminate.
+    destruct (parse_uint10 8 oa) as [a'|] eqn:Pa; [|discriminate].
+    destruct (parse_uint10 8 ob) as [b'|] eqn:Pb; [|discriminate].
+    destruct (parse_uint10 8 oc) as [c'|] eqn:Pc; [|discriminate].
+    destruct (parse_uint10 8 od) as [d'|] eqn:Pd; [|discriminate].
+    intros H. inversion H; subst. clear H.
+    exists oa, ob, oc, od, mask.
+    rewrite !wrap8_small by (change 256 with (2 ^ 8); eapply parse_uint10_some; eassumption).
+    repeat split; try assumption.
+    rewrite <- (join_split c_slash s), E1. cbn [join_with].
+    rewrite <- (join_split c_dot addr), E2. cbn [join_with].
+    repeat rewrite <- app_assoc. reflexivity.
+  - intros (da & db & dc & dd & dm & -> & Pa & Pb & Pc & Pd & Pm).
+    destruct (parse_uint10_some _ _ _ Pa) as (Da & Ba). destruct (parse_uint10_some _ _ _ Pb) as (Db & Bb).
+    destruct (parse_uint10_some _ _ _ Pc) as (Dc & Bc). destruct (parse_uint10_some _ _ _ Pd) as (Dd & Bd).
+    destruct (parse_uint10_some _ _ _ Pm) as (Dm & Bm).
+    unfold ipv4_of_string.
+    set (addr := da ++ [c_dot] ++ db ++ [c_dot] ++ dc ++ [c_dot] ++ dd).
+    assert (E : da ++ [c_dot] ++ db ++ [c_dot] ++ dc ++ [c_dot] ++ dd ++ [c_slash] ++ dm = addr ++ c_slash :: dm).
+    { unfold addr. repeat rewrite <- app_assoc. reflexivity. }
+    rewrite E. clear E.
+    rewrite split_on_app.
+    2:{ unfold addr. rewrite !nob_app, (digits_nob c_slash da), (digits_nob c_slash db), (digits_nob c_slash dc),
+          (digits_nob c_slash dd) by (assumption || reflexivity). reflexivity. }
+    rewrite split_on_nosep by (apply digits_nob; [assumption|reflexivity]).
+    rewrite Pm. unfold addr.
+    change (da ++ [c_dot] ++ db ++ [c_dot] ++ dc ++ [c_dot] ++ dd)
+      with (da ++ c_dot :: db ++ c_dot :: dc ++ c_dot :: dd).
+    rewrite !split_on_app by (apply digits_nob; [assumption|reflexivity]).
+    rewrite split_on_nosep by (apply digits_nob; [assumption|reflexivity]).
+    rewrite Pa, Pb, Pc, Pd.
+    now rewrite !wrap8_small by (change 256 with (2 ^ 8); assumption).
+Qed.
+
+(* Exact language of NewIPv6FromString: eight colon-separated non-empty hexadecimal fields of value
+   <= 0xffff (either case, leading zeros tolerated), denoting exactly their numeric values. *)
+Lemma parse_uint16_some bits s n :
+  parse_uint16 bits s = Some n -> forallb is_hexc s = true /\ n < 2 ^ bits.
+Proof.
+  unfold parse_uint16, parse_hex. destruct s as [|c r]; [discriminate|].
+  destruct (forallb is_hexc (c :: r)); [|discriminate].
+  destruct (N.ltb_spec (hex_val (c :: r)) (2 ^ bits)) as [Hlt|]; [|discriminate].
+  intros Hs. inversion Hs; subst. now split.
+Qed.
+
+Lemma parse_groups_forall2 parts gs :
+  parse_groups parts = Some gs <-> Forall2 (fun p x => parse_uint16 16 p = Some x) parts gs.
+Proof.
+  revert gs. induction parts as [|p ps IH]; intros gs.
+  - cbn [parse_groups]. split; intros H; [inversion H; constructor|inversion H; reflexivity].
+  - cbn [parse_groups]. split.
+    + destruct (parse_uint16 16 p) as [x|] eqn:Px; [|discriminate].
+      destruct (parse_groups ps) as [gs'|] eqn:Pg; [|discriminate].
+      intros H. inversion H; subst. constructor.
+      * rewrite wrap16_small; [exact Px|]. change 65536 with (2 ^ 16). eapply parse_uint16_some; eassumption.
+      * now apply IH.
+    + intros H. inversion H as [|p' x ps' gs' Px Hrest]; subst.
+      rewrite Px. apply IH in Hrest. rewrite Hrest.
+      rewrite wrap16_small; [reflexivity|]. change 65536 with (2 ^ 16). eapply parse_uint16_some; eassumption.
+Qed.
+
+Lemma ipv6_parse_exact s gs :
+  ipv6_of_string s = Ok gs <->
+  exists parts, length parts = 8%nat /\ s = join_with [c_colon] parts /\
+                Forall2 (fun p x => parse_uint16 16 p = Some x) parts gs.
+Proof.
+  unfold ipv6_of_string. split.
+  - destruct (Nat.eqb (length (split_on c_colon s)) 8) eqn:E; [|discriminate].
+    destruct (parse_groups (split_on c_colon s)) as [gs'|] eqn:Pg; [|discriminate].
+    intros H. inversion H; subst. exists (split_on c_colon s).
+    split; [now apply Nat.eqb_eq|]. split; [symmetry; apply join_split|]. now apply parse_groups_forall2.
+  - intros (parts & Hl & -> & Hf).
+    assert (Hnob : Forall (fun p => nob c_colon p = true) parts).
+    { clear Hl. induction Hf as [|p x ps gs' Px Hrest IH]; constructor; [|exact IH].
+      apply (nob_of_class is_hexc); [|reflexivity]. eapply parse_uint16_some; eassumption. }
+    rewrite split_join; [|destruct parts; discriminate|exact Hnob].
+    rewrite Hl. cbn [Nat.eqb]. apply parse_groups_forall2 in Hf. now rewrite Hf.
+Qed.
